@@ -378,7 +378,7 @@ def kw(ctx):
     skips = [x for s_ in lp.body for x in walk_local(s_) if isinstance(x, (ast.Continue, ast.Break))]
     ctx.check(not skips, skips[0] if skips else lp, "every given keyword is bound, collected under '**' or rejected (no continue/break in the keyword loop)",
               "the keyword loop skips some keywords (%s): they vanish from the canonical mapping" % (unparse(enclosing_stmt(skips[0]), 60) if skips else ""))
-    chain = [s for s in lp.body if isinstance(s, ast.If) and any("arg_dict" in unparse(t_) for t_ in ast.walk(s.test) if isinstance(t_, ast.Compare))]
+    chain = [s for s in lp.body if isinstance(s, ast.If) and not all(isinstance(x, (ast.Continue, ast.Break, ast.Pass)) for x in s.body)]
     if len(chain) != 1:
         if skips:
             return
